@@ -14,21 +14,72 @@ STUBS = '''impl Instance {
 impl Function {
     #[verifier::external_body] pub fn used_decision_variable_ids(&self) -> (r: BTreeSet<u64>) ensures r@ =~= fn_used(*self) { unimplemented!() }
 }
-// `for (ids, c) in self.objective().into_iter()` - IntoIterator for &Function (Box<dyn Iterator>; T5 assumed term iterator):
-// (sorted id tuple, coefficient) pairs; each id tuple is sorted and uses only ids of the function
+// purity naming (ASSUMED): the list the term iterator yields for a message is a function of the message.  Everything else about that list is proved (fn_terms below)
 #[verifier::external_body]
+pub fn name_terms(v: Vec<(SortedIds, F64)>, f: &Function) -> (r: Vec<(SortedIds, F64)>)
+    ensures r == v, r@ == fterms(*f)
+{ v }
+// `for (ids, c) in self.objective().into_iter()` (glue, verified): the real IntoIterator for &Function (a verified unit of this file), then the purity naming
 pub fn fn_terms(f: &Function) -> (r: Vec<(SortedIds, F64)>)
     requires fn_coo_ok(*f)      // IntoIterator for &Quadratic asserts equal COO lengths
-    ensures r@ == fterms(*f),   // the list is a function of the message; its terms sum to the polynomial (axiom ax_fterms_sum in spec/qubo_spec.rs)
+    ensures r@ == fterms(*f), fn_titems_ok(fterms(*f), *f),
         fn_fin(*f) ==> ft_fin(r@),
         forall|j: int| 0 <= j < r.len() ==> ids_sorted((#[trigger] r[j]).0.0@) && forall|t: int| 0 <= t < r[j].0.0.len() ==> fn_used(*f).contains(r[j].0.0[t])
-{ unimplemented!() }
+{
+    let v = f.into_iter(); let r = name_terms(v, f);
+    proof {
+        lemma_fn_ids_used(*f);
+        assert forall|j: int| 0 <= j < r.len() implies (fn_fin(*f) ==> fin((#[trigger] r[j]).1)) && ids_sorted(r[j].0.0@) && (forall|t: int| 0 <= t < r[j].0.0.len() ==> fn_used(*f).contains(r[j].0.0[t])) by {
+            lemma_fn_titems_from(r@, *f, j);
+            assert forall|t: int| 0 <= t < r[j].0.0.len() implies fn_used(*f).contains(r[j].0.0[t]) by { assert(fn_ids(*f).contains(r[j].0.0@[t])); }
+        }
+    }
+    r
+}
 // `ids.sort_unstable(); ids.dedup();` (std slice sort + Vec::dedup; T4): the distinct elements in strictly increasing order
 #[verifier::external_body] pub fn vec_sort_dedup(v: &mut Vec<u64>)
     ensures forall|i: int, j: int| 0 <= i < j < final(v).len() ==> final(v)[i] < final(v)[j],
         forall|x: u64| final(v)@.contains(x) <==> old(v)@.contains(x),
         final(v).len() == old(v)@.to_set().len(),
 { unimplemented!() }
+'''
+
+
+TERMS_LEMMAS = '''pub proof fn lemma_ft_kseq(t: Seq<(SortedIds, F64)>, n: int, x: Map<u64, F64>)
+    requires 0 <= n <= t.len()
+    ensures ft_sum(t, n, x) == kseq_sum(sitems(t), n, pw(x))
+    decreases n
+{ if n > 0 { lemma_ft_kseq(t, n - 1, x); lemma_mono_unit(rv(t[n - 1].1), t[n - 1].0.0@, t[n - 1].0.0@.len() as int, x); } }
+// (formerly an axiom) the terms of the list sum to the function
+pub proof fn lemma_fterms_sum(f: v1::Function, x: Map<u64, F64>)
+    requires fn_coo_ok(f), fn_titems_ok(fterms(f), f)
+    ensures ft_sum(fterms(f), fterms(f).len() as int, x) == fn_val(f, x)
+{ lemma_fn_titems_sum(fterms(f), f, x); lemma_ft_kseq(fterms(f), fterms(f).len() as int, x); }
+// THE PROPERTY in terms of the objective: on every 0/1 assignment the exported dictionary / matrix + offset reproduce the objective, minus the explicit remainder
+pub proof fn lemma_pubo_objective(f: v1::Function, x: Map<u64, F64>)
+    requires fn_coo_ok(f), fn_titems_ok(fterms(f), f), forall|j: int| 0 <= j < fterms(f).len() ==> binary_on(x, (#[trigger] fterms(f)[j]).0.0@)
+    ensures psum(pacc(fterms(f), fterms(f).len() as int), x) == fn_val(f, x) - prem(fterms(f), fterms(f).len() as int, x)
+{ lemma_fterms_sum(f, x); lemma_pubo_value(fterms(f), fterms(f).len() as int, x); }
+pub proof fn lemma_qubo_objective(f: v1::Function, x: Map<u64, F64>)
+    requires fn_coo_ok(f), fn_titems_ok(fterms(f), f), q_terms_ok(fterms(f), fterms(f).len() as int), forall|j: int| 0 <= j < fterms(f).len() ==> binary_on(x, (#[trigger] fterms(f)[j]).0.0@)
+    ensures qsum(qacc(fterms(f), fterms(f).len() as int), x) + qconst(fterms(f), fterms(f).len() as int) == fn_val(f, x) - qrem(fterms(f), fterms(f).len() as int, x)
+{ lemma_fterms_sum(f, x); lemma_qubo_value(fterms(f), fterms(f).len() as int, x); }
+// ids of the value (fn_ids) are ids validation sees (fn_used)
+pub proof fn lemma_fn_ids_used(f: v1::Function)
+    requires fn_coo_ok(f)
+    ensures fn_ids(f).subset_of(fn_used(f))
+{
+    match f.function {
+        Some(v1::function::Function::Quadratic(q)) => {
+            assert forall|k: u64| quad_ids(q.rows@, q.columns@, quad_n(q)).contains(k) implies q.rows@.to_set().contains(k) || q.columns@.to_set().contains(k) by {
+                lemma_quad_ids_mem(q.rows@, q.columns@, quad_n(q), k);
+                let i = choose|i: int| 0 <= i < quad_n(q) && #[trigger] pos_has(q.rows@, q.columns@, i, k);
+                if q.rows[i] == k { assert(q.rows@.contains(k)); } else { assert(q.columns@.contains(k)); }
+            }
+        }
+        _ => {}
+    }
+}
 '''
 
 
@@ -62,7 +113,9 @@ def as_pubo_format():
             && forall|k: u64| #[trigger] key.0@.contains(k) ==> fn_used(ofun(*self)).contains(k),
         // the dictionary IS the specified accumulation of the objective's terms (skip |c| <= EPSILON, key = set of the ids, accumulate, remove an entry whose sum became
         // numerically zero); lemma_pubo_value: sum_S c_S prod_{i in S} x_i = objective(x) on every 0/1 assignment minus the explicit remainder prem
-        r is Ok && fn_fin(ofun(*self)) ==> pmap_matches(r->Ok_0@, pacc(fterms(ofun(*self)), fterms(ofun(*self)).len() as int)),''',
+        r is Ok && fn_fin(ofun(*self)) ==> pmap_matches(r->Ok_0@, pacc(fterms(ofun(*self)), fterms(ofun(*self)).len() as int)),
+        // ... and that term list is one the (verified) term iterator yields: its terms sum to the objective (lemma_pubo_objective)
+        r is Ok ==> fn_titems_ok(fterms(ofun(*self)), ofun(*self)),''',
                 rsubs=[(r'self\.objective\(\)\.used_decision_variable_ids\(\)\.is_subset\(&self\.binary_ids\(\)\)', 'btreeset_is_subset(&self.objective().used_decision_variable_ids(), &self.binary_ids())', 1),
                        (r'in self\.objective\(\)\.into_iter\(\) \{', 'in fn_terms(&self.objective()) {', 1),
                        (r'out\.entry\(key\.vclone\(\)\)\.and_modify\(\|v\| \*v \+= c\)\.or_insert\(c\)', 'btreemap_add_or_insert(&mut out, key.vclone(), c)', 1),
@@ -71,7 +124,7 @@ def as_pubo_format():
                 forall|j: int| 0 <= j < __h1.len() ==> ids_sorted((#[trigger] __h1[j]).0.0@) && forall|t: int| 0 <= t < __h1[j].0.0.len() ==> fn_used(ofun(*self)).contains(__h1[j].0.0[t]),
                 forall|key: BinaryIds| #[trigger] out@.contains_key(key) ==> !xr_lt(xr_abs(out@[key]@), XR::Fin(eps_real()))
                     && forall|k: u64| #[trigger] key.0@.contains(k) ==> fn_used(ofun(*self)).contains(k),
-                __h1@ == fterms(ofun(*self)), fn_fin(ofun(*self)) ==> ft_fin(__h1@),
+                __h1@ == fterms(ofun(*self)), fn_titems_ok(__h1@, ofun(*self)), fn_fin(ofun(*self)) ==> ft_fin(__h1@),
                 fn_fin(ofun(*self)) ==> pmap_matches(out@, pacc(__h1@, it_1.index@ as int)),''')],
                 proofs=[(('after', r'let key = BinaryIds::from\(ids\);'), '''
                 proof { broadcast use ax_bkey, ax_binary_ids_ext; assert(key.0@ == bkey(__h1@[it_1.index@ as int].0.0@).0@); assert(key == bkey(__h1@[it_1.index@ as int].0.0@)); }''')])
@@ -91,7 +144,9 @@ def as_qubo_format():
         // the matrix and the offset ARE the specified accumulation of the objective's terms (skip |c| <= EPSILON, key (first id, last id), accumulate, remove an entry
         // whose sum became numerically zero); lemma_qubo_value: sum Q_ij x_i x_j + offset = objective(x) on every 0/1 assignment minus the explicit remainder qrem
         r is Ok && fn_fin(ofun(*self)) ==> ({ let t = fterms(ofun(*self)); let n = t.len() as int;
-            q_terms_ok(t, n) && qmap_matches(r->Ok_0.0@, qacc(t, n)) && r->Ok_0.1@ == XR::Fin(qconst(t, n)) }),''',
+            q_terms_ok(t, n) && qmap_matches(r->Ok_0.0@, qacc(t, n)) && r->Ok_0.1@ == XR::Fin(qconst(t, n)) }),
+        // ... and that term list is one the (verified) term iterator yields: its terms sum to the objective (lemma_qubo_objective)
+        r is Ok ==> fn_titems_ok(fterms(ofun(*self)), ofun(*self)),''',
                 rsubs=[(r'self\.objective\(\)\.used_decision_variable_ids\(\)\.is_subset\(&self\.binary_ids\(\)\)', 'btreeset_is_subset(&self.objective().used_decision_variable_ids(), &self.binary_ids())', 1),
                        (r'in self\.objective\(\)\.into_iter\(\) \{', 'in fn_terms(&self.objective()) {', 1),
                        (r'quad\.entry\(key\)\.and_modify\(\|v\| \*v \+= c\)\.or_insert\(c\)', 'btreemap_add_or_insert(&mut quad, key, c)', 1),
@@ -102,7 +157,7 @@ def as_qubo_format():
                 forall|j: int| 0 <= j < __h1.len() ==> ids_sorted((#[trigger] __h1[j]).0.0@) && forall|t: int| 0 <= t < __h1[j].0.0.len() ==> fn_used(ofun(*self)).contains(__h1[j].0.0[t]),
                 forall|key: BinaryIdPair| #[trigger] quad@.contains_key(key) ==> key.0 <= key.1 && !xr_lt(xr_abs(quad@[key]@), XR::Fin(eps_real()))
                     && fn_used(ofun(*self)).contains(key.0) && fn_used(ofun(*self)).contains(key.1),
-                __h1@ == fterms(ofun(*self)), fn_fin(ofun(*self)) ==> ft_fin(__h1@),
+                __h1@ == fterms(ofun(*self)), fn_titems_ok(__h1@, ofun(*self)), fn_fin(ofun(*self)) ==> ft_fin(__h1@),
                 fn_fin(ofun(*self)) ==> q_terms_ok(__h1@, __i1 as int) && qmap_matches(quad@, qacc(__h1@, __i1 as int)) && constant@ == XR::Fin(qconst(__h1@, __i1 as int)),
             decreases __h1.len() - __i1''')],
                 proofs=[(('after', r'let key = BinaryIdPair::try_from_sorted\(ids\)\?;'), '''
